@@ -2,6 +2,7 @@ import UberjobModel.Lemmas.EnginePath
 import UberjobModel.Lemmas.EngineInv2
 import UberjobModel.Lemmas.GraphWF
 import UberjobModel.Lemmas.EngineExamples
+import UberjobModel.Lemmas.EngineRefine
 /-!
 # C06 — nothing downstream of a failed call runs; the raised error names a real failure
 
@@ -39,6 +40,28 @@ theorem C06_raises_iff {g : Graph} {cfg : Cfg} (hw : 1 ≤ cfg.workers) {s : St}
 theorem C06_failed_not_ok {g : Graph} (hg : g.WF) {cfg : Cfg} {s : St} (h : Reach g cfg s)
     {x : Nat} (hx : x ∈ s.failed) : x ∈ s.begun ∧ x ∉ s.okd :=
   ⟨((inv_reach hg h).failBegun x hx).1, ((inv_reach hg h).failBegun x hx).2.1⟩
+
+open Uberjob.EngineFine in
+/-- **C06 in the fine model** (`Model/EngineFine.lean`: the `failure_lock` block — count, set the first error, decide `stop` —
+    and the counter block as individual steps, interleaved arbitrarily with the other threads): nothing that depends on a
+    failed node is ever begun; a failed node was begun and did not complete; and once the failure block has taken effect
+    the recorded first error is the first failure.  (While a failure block is between its first-error step and its `stop`
+    step, `first_node_error` may already name the node that is failing right now — it enters `failed` at the `stop` step —,
+    which is why the last clause speaks about the abstraction `abs`.) -/
+theorem C06_fine {g : Graph} (hg : g.WF) {cfg : Cfg} (hw : 1 ≤ cfg.workers) {s : St2} (h : Reach2 g cfg s) :
+    (∀ x y, x ∈ s.c.failed → Path g x y → y ∉ s.c.begun) ∧
+    (∀ x, x ∈ s.c.failed → x ∈ s.c.begun ∧ x ∉ s.c.okd) ∧
+    (abs s).first = s.c.failed.head? := by
+  obtain ⟨hr, _⟩ := refine_reach hg h
+  obtain ⟨_, _, _, _, _, hb, ho, hfl, _⟩ := abs_fields s
+  refine ⟨?_, ?_, ?_⟩
+  · intro x y hx hxy hy
+    exact C06_contain hg hr (by rw [hfl]; exact hx) hxy (by rw [hb]; exact hy)
+  · intro x hx
+    have := C06_failed_not_ok hg hr (x := x) (by rw [hfl]; exact hx)
+    rw [hb, ho] at this
+    exact this
+  · rw [C06_error hw hr, hfl]
 
 /-- Non-vacuity: in the diamond, node 1 fails; node 3 is never begun and the error names node 1. -/
 example : (run? diamond ⟨2, some 0⟩ (init diamond) diamondFail).map (fun s => (s.begun, s.failed, s.first))
